@@ -1,7 +1,7 @@
 """Which units / harnesses decide which property."""
 
 # unit -> Verus rlimit ("roughly seconds"); every function is far below it on the unchanged tree
-UNIT_RLIMIT = {'conn': 60, 'lemmas': 60, 'oneshot': 150, 'request': 60, 'client': 60, 'response': 120}
+UNIT_RLIMIT = {'conn': 60, 'lemmas': 60, 'oneshot': 150, 'request': 60, 'client': 60, 'response': 120, 'router': 60}
 
 PROPS = {
     'C01': dict(units=['conn', 'lemmas', 'client'], kani=['find_first_match_1', 'find_first_match_2'],
@@ -25,6 +25,8 @@ PROPS = {
                 hypotheses=['hyp_block: Headers::try_from(block) succeeds with h iff folding Headers::parse_header_line (ignoring UnsupportedValue) over the CRLF-separated lines of the block succeeds with h -- C15\'s block-vs-lines clause, str/HashMap code, ASSUMED',
                             'hyp_request_line: the request-line function used by the connection satisfies rl_outcome_ok / (Ok <=> rl_accepts) -- PROVED for RequestLine::try_from in unit request; that the connection calls a pure function is assumed',
                             'hyp_default: Headers::default() has Content-Length 0 -- PROVED on the real Default impl in unit response (clause Headers.default_values.zero)']),
+    'C17': dict(units=['router', 'response', 'request'], kani=['uri_abs_path_all'],
+                title='Router dispatches to exactly the handler registered for (method, prefix+path)'),
     'C16': dict(units=[], kani=['method_try_from_exact', 'version_try_from_exact', 'method_roundtrip', 'version_roundtrip',
                                'status_code_raw', 'mediatype_as_str', 'uri_abs_path_all'],
                 title='Token and URI functions are exact, case-sensitive and round-trip'),
